@@ -707,7 +707,11 @@ pub fn catch<T>(f: impl FnOnce() -> T) -> Result<T, (String, String)> {
 /// Strip the checkout prefix and line number so a signature survives edits.
 pub fn panic_sig(loc: &str) -> String {
     let l = loc.rsplit_once(':').map(|x| x.0).unwrap_or(loc);
-    l.trim_start_matches("/repo/").to_string()
+    // keep the path from `src/` on, wherever the checkout lives
+    match l.find("/src/") {
+        Some(i) if !l.starts_with("vh/") => l[i + 1..].to_string(),
+        _ => l.trim_start_matches("/repo/").to_string(),
+    }
 }
 
 // ---------------------------------------------------------------- Ctx
